@@ -206,15 +206,15 @@ func specIsHelperName(name string) bool {
 // Contracts.
 //
 //@ func (*converter).nextHelperVar
-//@   ensures[C01,C10] fresh-name: result == specHelperName(old(c.varCounter))
-//@   ensures[C01] counter-advances: c.varCounter == old(c.varCounter) + 1
+//@   ensures[C01,C10,C14] fresh-name: result == specHelperName(old(c.varCounter))
+//@   ensures[C01,C14] counter-advances: c.varCounter == old(c.varCounter) + 1
 //@   ensures[C01,C14] frame: sameExcept(c, old(c), "varCounter")
 //
 //@ func (*converter).varName
 //@   ensures[C02,C10] mangling: result == specName(len(c.funcs) > 0, c.funcCounter, name, global)
 //
 //@ func (*converter).varAssignmentString
-//@   ensures[C01,C02,C08] assignment-text: result == specAssign(specName(len(c.funcs) > 0, c.funcCounter, name, global), value)
+//@   ensures[C01,C02,C08,C17,C18] assignment-text: result == specAssign(specName(len(c.funcs) > 0, c.funcCounter, name, global), value)
 //
 //@ func (*converter).varEvaluationString
 //@   ensures[C01,C02] reference-text: result == specRef(specName(len(c.funcs) > 0, c.funcCounter, name, global))
@@ -247,23 +247,23 @@ func specIsHelperName(name string) bool {
 //@   ensures[C01] frame: sameExcept(c, old(c), "code")
 //
 //@ func (*converter).SliceAssignment
-//@   ensures[C03] line: appended(c.code, old(c.code), "_sah " + specRef(specName(len(c.funcs) > 0, c.funcCounter, name, global)) + " " + index + " \"" + value + "\" \"" + defaultValue + "\"") && result == nil
+//@   ensures[C03,C02] line: appended(c.code, old(c.code), "_sah " + specRef(specName(len(c.funcs) > 0, c.funcCounter, name, global)) + " " + index + " \"" + value + "\" \"" + defaultValue + "\"") && result == nil
 //@   ensures[C03,C16] helper-flagged: c.sliceAssignmentHelperRequired
 //@   ensures[C03] frame: sameExcept(c, old(c), "code", "sliceAssignmentHelperRequired")
 //
 //@ func (*converter).FuncStart
 //@   loop @"range params" invariant[C02] lines-so-far: len(c.code) == len(old(c.code)) + 2 + rangeindex && samePrefix(old(c.code), c.code) && c.code[len(old(c.code))] == name + "() {"
-//@   loop @"range params" invariant[C02] params-so-far: forall(k, 0, rangeindex + 1, c.code[len(old(c.code)) + 1 + k] == "local " + specAssign(specName(true, c.funcCounter, params[k], false), "${" + itoa(k + 1) + "}"))
+//@   loop @"range params" invariant[C02,C03] params-so-far: forall(k, 0, rangeindex + 1, c.code[len(old(c.code)) + 1 + k] == "local " + specAssign(specName(true, c.funcCounter, params[k], false), "${" + itoa(k + 1) + "}"))
 //@   loop @"range params" invariant[C02] frame: sameExcept(c, old(c), "code", "funcs", "funcCounter") && c.funcCounter == old(c.funcCounter) + 1 && appended(c.funcs, old(c.funcs), funcInfoOf(name))
 //@   ensures[C02] header: len(c.code) == len(old(c.code)) + 1 + len(params) && samePrefix(old(c.code), c.code) && c.code[len(old(c.code))] == name + "() {"
-//@   ensures[C02,C08] parameter-binding: forall(k, 0, len(params), c.code[len(old(c.code)) + 1 + k] == "local " + specAssign(specName(true, c.funcCounter, params[k], false), "${" + itoa(k + 1) + "}"))
+//@   ensures[C02,C08,C03] parameter-binding: forall(k, 0, len(params), c.code[len(old(c.code)) + 1 + k] == "local " + specAssign(specName(true, c.funcCounter, params[k], false), "${" + itoa(k + 1) + "}"))
 //@   ensures[C02] new-mangling-prefix: c.funcCounter == old(c.funcCounter) + 1 && appended(c.funcs, old(c.funcs), funcInfoOf(name)) && result == nil
 //@   ensures[C02] frame: sameExcept(c, old(c), "code", "funcs", "funcCounter")
 //
 //@ func (*converter).FuncEnd
 //@   requires[C13,C16] in-function: len(c.funcs) > 0
 //@   ensures[C02,C16] closes: appended(c.code, old(c.code), "}") && len(c.funcs) == len(old(c.funcs)) - 1 && samePrefix(c.funcs, old(c.funcs)) && result == nil
-//@   ensures[C02] frame: sameExcept(c, old(c), "code", "funcs")
+//@   ensures[C02,C10,C17] frame: sameExcept(c, old(c), "code", "funcs")
 //
 //@ func (*converter).Return
 //@   loop @"range values" invariant[C02] registers-so-far: len(c.code) == len(old(c.code)) + 1 + rangeindex && samePrefix(old(c.code), c.code) && forall(k, 0, rangeindex + 1, c.code[len(old(c.code)) + k] == specAssign("_rv" + itoa(k), values[k].value))
